@@ -126,6 +126,10 @@ fn qclass(rng: &mut Rng) -> u16 {
 
 /// OPT record, version `v`, options from the "unknown code" range
 fn put_opt(rng: &mut Rng, out: &mut Vec<u8>, v: u8) {
+    put_opt_owned(rng, out, &[], v)
+}
+
+fn put_opt_owned(rng: &mut Rng, out: &mut Vec<u8>, owner: &[Vec<u8>], v: u8) {
     let mut rd = Vec::new();
     for _ in 0..rng.below(3) {
         let code = rng.range(65001, 65534) as u16;
@@ -136,7 +140,204 @@ fn put_opt(rng: &mut Rng, out: &mut Vec<u8>, v: u8) {
     }
     let payload = *rng.pick(&[0u16, 512, 1232, 4096, 65535, 100]);
     let ttl = ((if rng.chance(1, 8) { rng.u8() } else { 0 } as u32) << 24) | ((v as u32) << 16) | if rng.bool() { 0x8000 } else { 0 } | if rng.chance(1, 8) { rng.u16() as u32 & 0x7fff } else { 0 };
-    refwire::put_record(out, &[], 41, payload, ttl, &rd);
+    refwire::put_record(out, owner, 41, payload, ttl, &rd);
+}
+
+/// a well-formed TSIG RR (RFC 8945 §4.2); the MAC is noise, no key is configured anywhere
+fn put_tsig(rng: &mut Rng, out: &mut Vec<u8>, id: u16) {
+    let key: Labels = vec![b"key".to_vec(), gen::label(rng, gen::NameStyle::Small, 8), b"example".to_vec()];
+    let alg = labels_of(*rng.pick(&["hmac-sha256.", "hmac-sha256.", "hmac-sha1.", "hmac-sha512.", "hmac-md5.sig-alg.reg.int.", "gss-tsig."]));
+    let mut rd = Vec::new();
+    refwire::put_name(&mut rd, &alg);
+    let t: u64 = 1_700_000_000 + rng.below(200_000_000);
+    rd.extend_from_slice(&t.to_be_bytes()[2..8]);
+    rd.extend_from_slice(&300u16.to_be_bytes());
+    let mac = rng.bytes_between(16, 64);
+    rd.extend_from_slice(&(mac.len() as u16).to_be_bytes());
+    rd.extend_from_slice(&mac);
+    rd.extend_from_slice(&id.to_be_bytes());
+    rd.extend_from_slice(&[0, 0, 0, 0]); // error 0, other len 0
+    refwire::put_record(out, &key, 250, 255, 0, &rd);
+}
+
+/// a SIG(0)-shaped RR (RFC 2931): TYPE SIG, type covered 0, root owner, CLASS ANY, TTL 0
+fn put_sig0(rng: &mut Rng, out: &mut Vec<u8>) {
+    let mut rd = vec![0u8, 0, *rng.pick(&[8u8, 13, 15]), 0, 0, 0, 0, 0];
+    let inception = 1_700_000_000u32 + rng.below(100_000_000) as u32;
+    rd.extend_from_slice(&(inception + 300).to_be_bytes());
+    rd.extend_from_slice(&inception.to_be_bytes());
+    rd.extend_from_slice(&rng.u16().to_be_bytes());
+    refwire::put_name(&mut rd, &labels_of("key.example."));
+    rd.extend_from_slice(&rng.bytes(64));
+    refwire::put_record(out, &[], 24, 255, 0, &rd);
+}
+
+#[derive(Clone, Copy)]
+enum Item {
+    Simple,
+    /// OPT with the given version; `true` = owner is not the root
+    Opt(u8, bool),
+    Tsig,
+    Sig0,
+}
+
+/// An otherwise valid request (name aimed at the configured zones like every other query) whose
+/// pseudo-records (OPT / TSIG / SIG(0)) are out of place, duplicated or mis-owned, plus correctly
+/// placed ones as controls.  The MODEL classifies what was built (`pseudo/<tag>` counters); the
+/// `kind` only names the generator arm.
+pub fn pseudo(rng: &mut Rng, cfg: &Config, ids: &mut Ids) -> Req {
+    let ver = |rng: &mut Rng| -> u8 {
+        if rng.chance(3, 4) {
+            0
+        } else if rng.bool() {
+            rng.range(1, 255) as u8
+        } else {
+            1
+        }
+    };
+    let mut sec: [Vec<Item>; 3] = [vec![], vec![], vec![]];
+    let kind: &'static str = match rng.below(20) {
+        // a lone OPT outside the additional section
+        0..=2 => {
+            sec[1].push(Item::Opt(ver(rng), false));
+            "pseudo-opt"
+        }
+        3 => {
+            sec[0].push(Item::Opt(ver(rng), false));
+            "pseudo-opt"
+        }
+        // more than one OPT in the message
+        4..=6 => {
+            sec[1].push(Item::Opt(ver(rng), false));
+            sec[2].push(Item::Opt(ver(rng), false));
+            "pseudo-opt"
+        }
+        7 => {
+            sec[0].push(Item::Opt(ver(rng), false));
+            sec[2].push(Item::Opt(ver(rng), false));
+            "pseudo-opt"
+        }
+        8 => {
+            sec[2].push(Item::Opt(ver(rng), false));
+            sec[2].push(Item::Opt(ver(rng), false));
+            "pseudo-opt"
+        }
+        9 => {
+            let (a, b) = *rng.pick(&[(0usize, 1usize), (0, 0), (1, 1), (0, 1)]);
+            sec[a].push(Item::Opt(ver(rng), false));
+            sec[b].push(Item::Opt(ver(rng), false));
+            if rng.bool() {
+                sec[2].push(Item::Opt(ver(rng), false));
+            }
+            "pseudo-opt"
+        }
+        // OPT owned by something else than the root
+        10 => {
+            sec[2].push(Item::Opt(ver(rng), true));
+            "pseudo-opt"
+        }
+        // TSIG outside the additional section
+        11 | 12 => {
+            sec[if rng.chance(2, 3) { 1 } else { 0 }].push(Item::Tsig);
+            if rng.chance(1, 3) {
+                sec[2].push(Item::Opt(ver(rng), false));
+            }
+            "pseudo-tsig"
+        }
+        // TSIG in the additional section but not last
+        13 | 14 => {
+            if rng.chance(1, 3) {
+                sec[2].push(Item::Opt(ver(rng), false));
+            }
+            sec[2].push(Item::Tsig);
+            sec[2].push(if rng.bool() { Item::Simple } else { Item::Opt(ver(rng), false) });
+            "pseudo-tsig"
+        }
+        // two TSIGs
+        15 => {
+            let first = *rng.pick(&[2usize, 2, 1, 0]);
+            sec[first].push(Item::Tsig);
+            sec[2].push(Item::Tsig);
+            "pseudo-tsig"
+        }
+        // SIG(0) out of place
+        16 => {
+            sec[if rng.bool() { 1 } else { 0 }].push(Item::Sig0);
+            "pseudo-sig0"
+        }
+        17 => {
+            sec[2].push(Item::Sig0);
+            sec[2].push(if rng.bool() { Item::Simple } else { Item::Opt(ver(rng), false) });
+            "pseudo-sig0"
+        }
+        // controls: everything in its place
+        18 => {
+            if rng.bool() {
+                sec[2].push(Item::Opt(ver(rng), false));
+            }
+            if rng.chance(1, 3) {
+                sec[2].push(Item::Sig0);
+            }
+            sec[2].push(Item::Tsig);
+            "pseudo-tsig"
+        }
+        _ => {
+            if rng.bool() {
+                sec[2].push(Item::Opt(ver(rng), false));
+            }
+            sec[2].push(Item::Sig0);
+            "pseudo-sig0"
+        }
+    };
+    // ordinary records around them (anywhere but behind the last additional record, so that the
+    // arm's idea of "last" survives)
+    for (si, s) in sec.iter_mut().enumerate() {
+        if rng.chance(1, 5) {
+            let at = if si == 2 { 0 } else { rng.usize_below(s.len() + 1) };
+            s.insert(at, Item::Simple);
+        }
+    }
+    let opcode: u8 = match rng.below(20) {
+        0..=13 => 0,
+        14 | 15 => 5,
+        16 => 4,
+        17 => 2,
+        _ => *rng.pick(&[1u8, 3, 6, 7, 8, 9, 10, 11, 12, 13, 14, 15]),
+    };
+    let mut flags: u16 = (opcode as u16) << 11;
+    for bit in [0x0100u16, 0x0020, 0x0010, 0x0400, 0x0200, 0x0040, 0x0080] {
+        if rng.chance(1, 4) {
+            flags |= bit;
+        }
+    }
+    let (qt, qc) = match opcode {
+        4 | 5 => (6, 1),
+        _ if rng.chance(3, 4) => (*rng.pick(&[16u16, 16, 16, 1, 28, 2, 6, 15, 5]), 1),
+        _ => (qtype(rng), qclass(rng)),
+    };
+    let name = qname(rng, cfg, ids);
+    let id = ids.id();
+    let mut b = Vec::new();
+    refwire::put_header(&mut b, &WHeader { id, flags, qd: 1, an: sec[0].len() as u16, ns: sec[1].len() as u16, ar: sec[2].len() as u16 });
+    refwire::put_question(&mut b, &name, qt, qc);
+    for s in &sec {
+        for item in s {
+            match *item {
+                Item::Simple => {
+                    let ptr = rng.bool();
+                    put_simple_record(rng, &mut b, &name, ptr);
+                }
+                Item::Opt(v, false) => put_opt(rng, &mut b, v),
+                Item::Opt(v, true) => {
+                    let owner: Labels = if rng.bool() || name.is_empty() { vec![b"opt".to_vec()] } else { name.clone() };
+                    put_opt_owned(rng, &mut b, &owner, v);
+                }
+                Item::Tsig => put_tsig(rng, &mut b, id),
+                Item::Sig0 => put_sig0(rng, &mut b),
+            }
+        }
+    }
+    Req { kind, bytes: b }
 }
 
 fn put_simple_record(rng: &mut Rng, out: &mut Vec<u8>, owner: &Labels, ptr_owner: bool) {
@@ -281,10 +482,11 @@ fn generated(rng: &mut Rng, response: bool, opt_den: u64) -> Vec<u8> {
 pub fn request(rng: &mut Rng, cfg: &Config, ids: &mut Ids) -> Req {
     let maybe_v0 = |rng: &mut Rng, den: u64| if rng.chance(1, den) { Some(0u8) } else { None };
     match rng.below(100) {
-        0..=34 => {
+        0..=30 => {
             let edns = maybe_v0(rng, 3);
             Req { kind: "query", bytes: valid(rng, cfg, ids, Shape { opcode: 0, edns, qr: false }) }
         }
+        31..=34 => pseudo(rng, cfg, ids),
         35..=42 => {
             let v = if rng.bool() { rng.range(1, 255) as u8 } else { rng.range(0, 3) as u8 };
             let opcode = *rng.pick(&[0u8, 0, 0, 0, 2, 4, 5]);
